@@ -229,7 +229,7 @@ void h_get_struct(void)
     void *r = dyn_array_get_struct(arr, index);
     COVER_NZ(r != NULL);
 #ifndef VERIF_C08
-    VERIF_COVER(r == NULL);
+    /* (an out-of-range index no longer returns NULL: the call ends in exit(1), fix ca10dd0) */
 #endif
 }
 
